@@ -53,7 +53,10 @@ func (s *Translator) prepareFilterExpression(filterExpression *cypher.FilterExpr
 	} else if !hasCypherBinding {
 		return fmt.Errorf("filter expression must have a cypher identifier")
 	} else {
+		// The quantifier variable is visible inside the quantifier only
+		s.query.CurrentPart().stashedQuantifierShadowedAlias = s.scope.ShadowedAlias(identifier)
 		s.scope.Alias(identifier, bi)
+
 		if aliasedIdentifier, bound := s.scope.AliasedLookup(identifier); !bound {
 			return fmt.Errorf("filter expression must have an aliased identifier")
 		} else if s.query.CurrentPart().currentPattern.Parts != nil || s.query.CurrentPart().CurrentProjection() != nil {
@@ -122,6 +125,9 @@ func (s *Translator) translateFilterExpression(filterExpression *cypher.FilterEx
 			// push nested query on stashed expression tree translator
 			s.query.CurrentPart().stashedExpressionTreeTranslator.treeBuilder.PushOperand(nestedQuery)
 			s.treeTranslator = s.query.CurrentPart().stashedExpressionTreeTranslator
+
+			// Leaving the quantifier: its variable goes out of scope
+			s.scope.Unalias(identifier, currentPart.stashedQuantifierShadowedAlias)
 		}
 	}
 
